@@ -38,6 +38,10 @@ def judge(r, method, allow_negatives, consistent, viol, known, tags):
         if len(x) != M.shape[1] and int((x == -1).sum()) == len(x) - M.shape[1]:
             x = x[x != -1]          # interfaces excluded by an angle limit are reported as -1 at their own position (C16)
             tags.append("angle_limited")
+        if len(x) != M.shape[1]:
+            viol.append({"what": "the reported vector is not one value per unknown (with -1 at the positions of the interfaces left out of the system)",
+                         "detail": {"reported": len(r.forces), "minus_ones": int((np.array(r.forces, float) == -1).sum()), "unknowns": int(M.shape[1])}})
+            return
         rec = r.record
         if method == "fix_stress":
             return
